@@ -27,12 +27,12 @@ KNOWN_FILE = os.path.join(VERIF, "known_findings.json")
 # worlds per tier (a wall-clock budget is only a safety net)
 PLAN = {
     "quick": {
-        "C01": dict(worlds=420, wall=100),
-        "C13": dict(worlds=700, wall=100),
-        "C17": dict(worlds=420, wall=100),
-        "C02": dict(worlds=96, wall=100),
-        "C03": dict(worlds=80, wall=100),
-        "C04": dict(worlds=80, wall=100),
+        "C01": dict(worlds=360, wall=150),
+        "C13": dict(worlds=500, wall=150),
+        "C17": dict(worlds=360, wall=150),
+        "C02": dict(worlds=160, wall=150),
+        "C03": dict(worlds=140, wall=150),
+        "C04": dict(worlds=200, wall=150),
     },
     "thorough": {
         "C01": dict(worlds=9000, wall=1700),
@@ -249,11 +249,12 @@ def run_check(prop, tier, root, workers=None, worlds=None, wall=None, world_list
     known_lines = []
 
     # 1. replay the witnesses of the known findings
-    for e in known:
-        if e.get("status") != "known":
-            continue
-        wpath = os.path.join(VERIF, e["witness"])
-        v, rc = replay_subprocess(wpath)
+    from concurrent.futures import ThreadPoolExecutor
+
+    kn = [e for e in known if e.get("status") == "known"]
+    with ThreadPoolExecutor(max_workers=8) as tp:
+        replays = list(tp.map(lambda e: replay_subprocess(os.path.join(VERIF, e["witness"])), kn))
+    for e, (v, rc) in zip(kn, replays):
         if v is not None and matches_known(v, [e]):
             line = "KNOWN-FINDING: property=%s %s" % (prop, e["description"])
             known_lines.append(line)
